@@ -582,6 +582,14 @@ def run(tier, seed, replay=None):
                 else:
                     sources.append(mutate(r, toks, ids)); kinds.append("mutation")
 
+    if not replay:
+        # every lexical / syntactic diagnostic with the offending character first on a line, alone in the file, after blank
+        # lines, in mid-line and at the very end (the echo of the source line in main's catch site depends on the layout)
+        for ch in ["@", "?", "%", "$", "`", "\x80", "'ab'", "\"abc", "#", ")", "]", "then"]:
+            for tmpl in ("{c}", "\n{c}", "val a = 1;\n{c} proc main() is skip\n", "proc main() is skip\n{c}", "proc main() is {c}",
+                         " {c}\n", "proc main() is\n{c}\n skip", "\n\n\t{c}", "proc main() is 0(1) {c}"):
+                sources.append(tmpl.replace("{c}", ch)); kinds.append("layout")
+
     obs = {a: observe(h, sources, a) for a in ACTIONS}
     cls = Counter()
     bad = []
@@ -629,7 +637,7 @@ def run(tier, seed, replay=None):
         exe = os.path.join(tools, "xcmp")
         workroot = os.path.join(C.BUILD, "work")
         os.makedirs(workroot, exist_ok=True)
-        sub_exe = [i for i, k in enumerate(kinds) if k in ("odd", "seed", "replay")][:600]
+        sub_exe = [i for i, k in enumerate(kinds) if k in ("odd", "seed", "replay")][:600] + [i for i, k in enumerate(kinds) if k == "layout"]
 
         def run_exe(i):
             d = tempfile.mkdtemp(prefix="c09x-", dir=workroot)
